@@ -515,7 +515,9 @@ def _dict_method(I, o, name):
 
 
 def _set_method(I, o, name):
-    def add(I, a, k): o.add(ops.dict_key(I, a[0], None))
+    def add(I, a, k):
+        x = I.force(a[0])
+        o.add(x if isinstance(x, Sym) else ops.dict_key(I, x, None))     # symbolic members: membership is decided by ==, len() is refused
     def update(I, a, k): o.update(ops.make_set(I, ops.iterate(I, a[0], None), None))
     def union(I, a, k): return set(o).union(*[ops.make_set(I, ops.iterate(I, x, None), None) for x in a])
     def copy(I, a, k): return set(o)
